@@ -358,6 +358,10 @@ def json_formatter(ctx, datefmt_kind):
     for k in JKEYS:
         if ctx.flag("record_has_" + k):
             payload[k if k != "private" else "private_r"] = ctx.num("r_" + k, "int")
+    # JSON-serialisable data need not have string keys: json renders int keys as text
+    int_key = ctx.flag("record_has_int_key")
+    if int_key:
+        payload[7] = ctx.num("r_int_key", "int")
     use_defaults = defaults if defaults or ctx.flag("empty_mapping_not_none") else None
     fmt = JsonFormatter(use_defaults, datefmt=datefmt)
     rec = logging.LogRecord("verif.monitor", logging.INFO, "file.py", 1, "the message", (payload,) if payload else ({},), None)
@@ -368,6 +372,8 @@ def json_formatter(ctx, datefmt_kind):
         @staticmethod
         def dumps(data, *a, **k):
             captured["data"] = dict(data)
+            if k.get("sort_keys"):
+                sorted(data)  # what the real encoder does: raises TypeError on keys of mixed types
             return "<json>"
 
     if ctx.mode == "conc":
@@ -384,8 +390,10 @@ def json_formatter(ctx, datefmt_kind):
         expected["time"] = fmt.formatTime(rec, datefmt)
     expected["message"] = "the message"
     expected.update(payload)
-    ctx.observe("keys", sorted(data))
-    ctx.require(sorted(data) == sorted(expected), "the JSON object has exactly the keys of defaults, time, message and data")
+    if int_key and ctx.mode == "conc":  # decoded from the real JSON text
+        expected["7"] = expected.pop(7)
+    ctx.observe("keys", sorted(map(str, data)))
+    ctx.require(sorted(map(str, data)) == sorted(map(str, expected)), "the JSON object has exactly the keys of defaults, time, message and data")
     ok = True
     for k, v in expected.items():
         g = data.get(k)
